@@ -2,7 +2,7 @@
    (reader and attachment half; the documentation-text half is in Props/C03doc.v).
    Statements only; proofs in Lex/ReaderDocProofs.v and Sem/TreeProofs.v. *)
 From Ford Require Import Base.Str Lex.Quote Lex.Reader Lex.ReaderSpec Lex.ReaderProofs Lex.ReaderDocSpec
-  Lex.ReaderDocProofs Sem.Tree Sem.TreeSpec Sem.TreeProofs.
+  Lex.ReaderDocProofs Lex.ReaderDoc4Spec Lex.ReaderDoc4Proofs Sem.Tree Sem.TreeSpec Sem.TreeProofs.
 
 (* The reader: every statement is followed by exactly the documentation written for it — the "!>"
    lines before it, in order, then its inline "!!" text; documentation lines on their own pass
@@ -15,6 +15,21 @@ Theorem C03_reader_docs : forall f,
   read_all default_cfg (render_doc_file f) = ROk (doc_out false f).
 Proof. exact reader_docs. Qed.
 Print Assumptions C03_reader_docs.
+
+(* The reader, all FOUR marker styles and their mixtures over a file ([xitem], Lex/ReaderDoc4Spec.v):
+   before a statement any sequence of "!>" blocks (first line "!>t", then "!!" lines, ordinary
+   comments and blank lines) and "!|" blocks (first line "!|t", then comment lines "!t" and blank
+   lines; every comment line up to the statement belongs to the block); after it inline "!!" text,
+   "!!" lines and "!*" blocks (the line "!*t" and the comment lines immediately after it; a blank
+   line, a statement or any marked line ends the block).
+   [doc_out4]: a statement is followed by exactly its documentation — its preceding blocks in
+   order, then its inline text — rewritten to the plain marker, complete, once; lines of "!*"
+   blocks and "!!" lines follow in order; ordinary comments never appear. *)
+Theorem C03_reader_docs4 : forall f,
+  Forall xitem_ok f ->
+  read_all default_cfg (render_xfile f) = ROk (doc_out4 false false f).
+Proof. exact reader_docs4. Qed.
+Print Assumptions C03_reader_docs4.
 
 (* The parser: the documentation lines that follow a declaration statement are attached to the
    entities that statement declares (for a container: to the container), and to nothing else —
